@@ -4155,6 +4155,8 @@ class TLSConnection(TLSRecordLayer):
                                                 extended_master_secret,
                                                 bytearray(0))
                     extensions.append(ems)
+                    # keep the connection attribute in step with the client
+                    self.extendedMasterSecret = True
                 secureRenego = False
                 renegoExt = clientHello.\
                     getExtension(ExtensionType.renegotiation_info)
